@@ -14,6 +14,9 @@ namespace GeomV.C04
 open GeomV
 variable {α : Type}
 
+section
+variable [LT α] [DecidableLT α]
+
 theorem foldlM_len (gs : List (Geom α)) (acc : Nat) :
     gs.foldlM (fun i g => do let t ← lenG g; pure (i + t)) acc
       = (match lenL gs with | .error e => .error e | .ok n => .ok (acc + n) : Except Fault Nat) := by
@@ -37,6 +40,7 @@ theorem C04_tie_GeometryCollection_Len (gs : List (Geom α)) :
   show lenL gs = (gs.foldlM (fun i g => do let t ← lenG g; pure (i + t)) 0)
   rw [foldlM_len gs 0]
   cases lenL gs <;> simp
+end
 
 section
 variable [LE α] [LT α] [Min α] [Max α] [DecidableLE α] [DecidableLT α] [DecidableEq α] [HasInf α]
